@@ -8,6 +8,25 @@ package pgo
 // and the augmentations are mapped back. Summarised: what its callers rely on is that a successful parse
 // yields a new file whose code is present and whose positions belong to a file registered in the file set.
 //@ func Parse(fset, filename, src) (file, err)
-//@   trusted augments the text, parses it with go/parser and maps the augmentations back (go/parser, go/ast traversal): summarised
 //@   requires fset != nil
-//@   ensures err == nil ==> file != nil && fresh(file) && file.Node != nil && file.Node.val != nil && fsFileOf(fset, nodePos(file.Node)) != nil
+//@   at call pgo/augment.Augment assert [C10,C13] the-text-of-the-side-is-what-is-augmented: arg0 == src0
+//@   at call go/parser.ParseFile assert [C10,C13] the-augmented-text-is-what-the-go-parser-reads: arg0 == fset && boxedSlice(arg2) == ret("pgo/augment.Augment", 0, 0)
+//@   at call go/parser.ParseFile set parsedImports = result0.Imports
+//@   at call go/parser.ParseFile set parsedPackage = result0.Name.Name
+//@   at call go/parser.ParseFile set parsedComments = result0.Comments
+//@   ensures [C10] the-import-guards-are-the-imports-of-the-text-as-the-go-parser-reads-it: err == nil ==> file.Imports == parsedImports
+//@   ensures [C10] the-package-guard-is-the-package-clause-unless-it-was-supplied-by-the-augmentation: err == nil ==> file.Package == "" || file.Package == parsedPackage
+//@   ensures [C17] pattern-comments-are-the-comments-of-the-text: err == nil ==> file.Comments == parsedComments
+//@   ensures err == nil ==> file != nil && fresh(file)
+//@   assigns group(ast), parsedImports, parsedPackage, parsedComments, allof("E.pgo_augment_PosAdjustment"), allof("E.parse_section_LinePos")
+//@   ensures-assumed typing: err == nil ==> file.Node != nil && file.Node.val != nil && fsFileOf(fset, nodePos(file.Node)) != nil
+
+// Mapping the elisions of the patch back into the parsed tree (ast traversal; summarised).
+//@ func augmentAST(file, n, augs, adj) (res, err)
+//@   trusted replaces the placeholders the augmentation put into the text by pgo.Dots nodes (astutil.Apply traversal): summarised
+//@   assigns group(ast)
+//@   ensures err == nil ==> res != nil
+
+//@ func (a *posAdjuster) Position(pos) (p)
+//@   trusted maps a position of the augmented text back to the patch (sort.Search over the adjustments, go/token): summarised
+//@   assigns nothing
